@@ -359,7 +359,7 @@ func copyAndFlush(dst io.Writer, src io.Reader) error {
 		n, err := src.Read(buf)
 		if n > 0 {
 			if _, e := dst.Write(buf[:n]); e != nil {
-				return err
+				return e
 			}
 			dst.(http.Flusher).Flush()
 		}
